@@ -315,6 +315,18 @@ operator% (mpz_class v1, mpz_class v2)
   if (v2.m_u == 0)
     int_error (describe_div_0 (v1, v2, '%'));
 
-  mpz_class d = v1 / v2;
-  return v1 - v2 * d;
+  // Work on magnitudes: the intermediate v2 * (v1 / v2) may be out of
+  // range even though the remainder never is.
+  bool neg1 = v1 < 0;
+  bool neg2 = v2 < 0;
+  uint64_t a = (neg1 ? -v1 : v1).m_u;
+  uint64_t b = (neg2 ? -v2 : v2).m_u;
+
+  // The remainder has the sign of the divisor.
+  uint64_t r = a % b;
+  if (r != 0 && neg1 != neg2)
+    r = b - r;
+
+  mpz_class ret {r, signedness::unsign};
+  return neg2 ? -ret : ret;
 }
